@@ -305,7 +305,8 @@ Handle(c, e) ==
 Cap(n) == IF n > 16777216 THEN 16777216 ELSE n      \* keeps the bound inside TLC's 32-bit integers
 (* monitors that apply to every event that carries the corresponding observation *)
 Common(c, c2, e) ==
-  Chk({<<"C09", (Has(e, "my") /\ c2.pc # "stopping") => c2.mirror = ToSet(e.my)>>,
+  Chk({<<"OTH", (Has(e, "oth") /\ c2.pc # "dead" /\ e.e # "init") => ToSet(e.oth) = c2.oth>>,
+       <<"C09", (Has(e, "my") /\ c2.pc # "stopping") => c2.mirror = ToSet(e.my)>>,
        <<"C17", (Has(e, "iv") /\ e.e # "init") => e.iv = c.iv>>,      \* what the socket held when the event was logged
        <<"C17", (c2.mode # "accept_any" /\ c2.pc # "dead") => IvAllInRange(c2.iv)>>,
        <<"C08", (c2.goodSince # 0 /\ ~c2.converged) =>
